@@ -121,6 +121,18 @@ def run(ctx):
                         ctx.violation("monitor", "filter altered an entry of magnitude >= eps or broke symmetry", {"case": case, "eps": eps})
                 if not np.array_equal(gl._zero_small_elements(Th, 0), Th):
                     ctx.violation("monitor", "eps = 0 is not the identity", {"case": case})
+                # ... and at the place where the library applies the floor to an optimiser result
+                from fast_ticc.containers import model_state as _ms2, arguments as _args2
+                for eps in (1e-6, 1e-3, 0.1):
+                    ua2 = _args2.UserArguments(sparsity_weight=lam, iteration_limit=1, label_switching_cost=1.0, min_cluster_size=1,
+                                               min_meaningful_covariance=eps, num_clusters=1, num_processors=1, biased_covariance=False, window_size=W)
+                    R = gl._reconstruct_optimized_matrix(_ms2.ModelState.empty_model(ua2, None), np.array(comp, copy=True))
+                    a = np.abs(R)
+                    if np.any((a > 0) & (a < eps)):
+                        ctx.violation("monitor", "MRF reconstructed with floor eps=%g keeps an entry of magnitude in (0, eps) (e.g. %.3g)" % (eps, float(a[(a > 0) & (a < eps)][0])), {"case": case, "eps": eps})
+                    big = np.abs(Th) >= eps
+                    if not np.array_equal(R[big], Th[big]):
+                        ctx.violation("monitor", "reconstruction with floor altered an entry of magnitude >= eps", {"case": case, "eps": eps})
         # the library's own log-determinant of an MRF whose determinant leaves the double range
         from fast_ticc.containers import model_state as _ms, arguments as _args
         from fast_ticc import likelihood as _lk
